@@ -54,11 +54,47 @@ def run_viewer(data, options, limit=5):
         shutil.rmtree(d, ignore_errors=True)
 
 
+def rand_payload(rng):
+    """payload bytes with runs of one repeated hex DIGIT that start / end inside a byte (the viewer elides long runs of
+    equal digits), next to random bytes; lengths 0..~60"""
+    digits = ""
+    for _ in range(rng.randrange(0, 4)):
+        c = rng.random()
+        if c < 0.55:
+            digits += "".join(rng.choice("0123456789abcdef") for _ in range(rng.randrange(0, 5)))
+            digits += rng.choice("0f0f37a5") * rng.randrange(8, 50)
+            digits += "".join(rng.choice("0123456789abcdef") for _ in range(rng.randrange(0, 5)))
+        else:
+            digits += "".join(rng.choice("0123456789abcdef") for _ in range(rng.randrange(0, 12)))
+    if len(digits) % 2:
+        digits += rng.choice("0123456789abcdef")
+    return bytes.fromhex(digits)
+
+
+def payload_stream(rng):
+    """a sequence of padding / auxiliary data units with such payloads (serialised by the real serialiser)"""
+    from io import BytesIO
+    from vc2_conformance.bitstream import (Stream, Sequence, DataUnit, ParseInfo, Padding, AuxiliaryData,
+                                           autofill_and_serialise_stream)
+    from vc2_data_tables import ParseCodes
+
+    dus = []
+    for _ in range(rng.randrange(1, 4)):
+        if rng.random() < 0.5:
+            dus.append(DataUnit(parse_info=ParseInfo(parse_code=ParseCodes.padding_data), padding=Padding(bytes=rand_payload(rng))))
+        else:
+            dus.append(DataUnit(parse_info=ParseInfo(parse_code=ParseCodes.auxiliary_data), auxiliary_data=AuxiliaryData(bytes=rand_payload(rng))))
+    dus.append(DataUnit(parse_info=ParseInfo(parse_code=ParseCodes.end_of_sequence)))
+    f = BytesIO()
+    autofill_and_serialise_stream(f, Stream(sequences=[Sequence(data_units=dus)]))
+    return f.getvalue()
+
+
 class Prop(object):
     id = "C26"
     lean_modules = ["VC2.Props.C26"]
     status = "partial"
-    rule = ("the 12 conformant seed streams (incl. one with a custom quantisation matrix) and their byte- and field-level mutations and random data, written to a file and "
+    rule = ("the 12 conformant seed streams (incl. one with a custom quantisation matrix) and their byte- and field-level mutations and random data, and sequences of padding / auxiliary data units whose payloads hold long runs of one hex digit that start or end inside a byte, written to a file and "
             "shown by the REAL command main([...]) under the default options and 12 sampled option sets (internal state, verbose, hide-slice, offset windows incl. stop offsets 0 and before the start, show/hide filters with and without the status line, "
             "ignore prefix): the return code must be one of 0 (ok), 2 (bad prefix), 3 (end of file), 4 (parse failure) and never 255; inputs over the size bound or slower than 5 s are skipped")
     trusted = ["model ViewerCli.lean covers only the error classification and exit-status decision; the display code is not modelled: for it this check is a search on the real program, which is support, not proof"]
@@ -73,6 +109,8 @@ class Prop(object):
         for _ in range(ctx.n(900, 15000)):
             n, d = rng.choice(seeds)
             cases.append((n, B.mutate(rng, d), rng.choice(OPTION_SETS) if rng.random() < 0.5 else []))
+        for _ in range(ctx.n(120, 3000)):
+            cases.append(("payloads", payload_stream(rng), rng.choice([[], ["--no-status"], ["--verbose", "--no-status"], ["--show", "padding"]])))
         for n, data, opts in cases:
             if B.validate(data) in ("OUT-OF-SCOPE", "TIMEOUT"):
                 ctx.count("viewer:skipped")
@@ -101,6 +139,8 @@ class Prop(object):
             if B.validate(m) in ("OUT-OF-SCOPE", "TIMEOUT"):
                 continue
             opts = rng.choice(OPTION_SETS)
+            if rng.random() < 0.15:
+                n, m = "payloads", payload_stream(rng)
             code, err = run_viewer(m, opts)
             if code not in (0, 2, 3, 4, "TIMEOUT"):
                 return {"seed": n, "bytes": m.hex(), "options": opts, "why": "viewer returned %s: %s" % (code, err.strip()[-300:])}
